@@ -11,6 +11,13 @@ Ops
 * `start`                                    `ExchangeTransformer::init` with all recorded initial events
 * `msg sym U u pu | p:a … | p:a …`           one depth-update message for symbol `sym` (`sym ≥ n` ⇒ not subscribed)
 * `end`                                      whole output list through `with_termination_on_error`, applied to fresh snapshot books
+* `depth k n`                                the REST request of instrument `k` asks for `limit = n`: the following `snap k` holds
+                                             the best `n` levels per side only (`spot/l2.rs:54`, `futures/l2.rs:57`: `limit=100`).
+                                             From then on every block that prints `book<k>` / `fbook<k>` also prints one line
+                                             `lv<k>:<b|a>:<price> <amount>` (`flv…` at `end`) per price of `venue k` (per side,
+                                             ascending): the local book's amount at that price, 0 = no level. `spec` states
+                                             these lines for exactly the prices the snapshot covers, an admitted update wrote,
+                                             or the venue changed since the snapshot id (`Props.C06.book_is_truth_on`)
 
 Observations: `start ok|missing|invalid`; per `msg`: `out …` (what `transform` returned, the transformer
 is fed every message even after an error), `sq k processed last [prev]` (a stand-alone sequencer fed the same
@@ -124,8 +131,28 @@ structure MSt where
   /-- the consumer's local books kept across a `reconnect` (`OrderBookL2Manager` keeps its books; the new
   connection's snapshots are applied to them) -/
   persist : Option Books := none
+  /-- `venue k` ops (only the price universe of the `lv` lines is read from them) -/
+  venues : List (Nat × Venue) := []
+  /-- instruments with a declared REST depth (`depth k n`): their blocks carry `lv` lines -/
+  depths : List Nat := []
 
-def MSt.empty : MSt := ⟨.spot, 0, [], false, ⟨[]⟩, [], ⟨⟨[]⟩, [], true⟩, [], [], none⟩
+def MSt.empty : MSt := ⟨.spot, 0, [], false, ⟨[]⟩, [], ⟨⟨[]⟩, [], true⟩, [], [], none, [], []⟩
+
+def sideTag : Side → String
+  | .bids => "b"
+  | .asks => "a"
+
+def lvKey (pfx : String) (k : Nat) (sd : Side) (p : Rat) : String :=
+  pfx ++ toString k ++ ":" ++ sideTag sd ++ ":" ++ fmtRat p
+
+/-- per-level observation of instrument `k`'s book over the venue's price universe -/
+def fmtLvs (pfx : String) (k : Nat) (v : Venue) (b : OrderBook) : List String :=
+  [Side.bids, Side.asks].flatMap fun sd =>
+    (uniPrices v sd).map fun p => lvKey pfx k sd p ++ " " ++ fmtRat (abs (sideOf b sd) p)
+
+def MSt.lvLines (s : MSt) (pfx : String) (books : Books) : List String :=
+  books.flatMap fun (k, b) =>
+    if s.depths.contains k then fmtLvs pfx k ((s.venues.lookup k).getD []) b else []
 
 def model : Drv MSt where
   init := MSt.empty
@@ -137,7 +164,11 @@ def model : Drv MSt where
       | _, _ => (s, ["bad-op"])
     | "venue" :: k :: cs =>
       match k.toNat?, parseChanges? cs with
-      | some _, some _ => (s, [])
+      | some k, some cs => ({ s with venues := (k, cs) :: s.venues }, [])
+      | _, _ => (s, ["bad-op"])
+    | ["depth", k, n] =>
+      match k.toNat?, n.toNat? with
+      | some k, some _ => ({ s with depths := k :: s.depths }, [])
       | _, _ => (s, ["bad-op"])
     | ["reconnect"] =>
       -- new connection, same consumer: its books are what the previous connection delivered
@@ -160,7 +191,7 @@ def model : Drv MSt where
         let books0 := s.initial.foldl (fun bs (k, ev) => managerStep bs (.item k ev)) books0
         let seqs := t.instrumentMap.map fun (sub, im) => (sub, im.sequencer)
         ({ s with started := true, tr := t, seqs := seqs, conn := ⟨t, books0, true⟩, books0 := books0, outs := [] },
-          "start ok" :: fmtBooks "book" books0)
+          "start ok" :: fmtBooks "book" books0 ++ s.lvLines "lv" books0)
     | "msg" :: body =>
       match parseMsg? body with
       | none => (s, ["bad-op"])
@@ -175,7 +206,8 @@ def model : Drv MSt where
             (s.seqs.map fun (k, x) => if k = m.sub then (k, sq') else (k, x), [fmtSq s.rules m.sub sq'])
         let conn := s.conn.step s.rules m
         ({ s with tr := tr, seqs := seqs, conn := conn, outs := s.outs ++ outs },
-          fmtOuts s.rules outs ++ sqLine ++ ["alive " ++ fmtBool conn.alive] ++ fmtBooks "book" conn.books)
+          fmtOuts s.rules outs ++ sqLine ++ ["alive " ++ fmtBool conn.alive] ++ fmtBooks "book" conn.books ++
+            s.lvLines "lv" conn.books)
     | ["end"] =>
       if !s.started then (s, ["bad-op"]) else
       let delivered := terminate s.outs
@@ -183,7 +215,7 @@ def model : Drv MSt where
       let nErr := delivered.length - nEv
       let books := consume s.books0 delivered
       (s, ("delivered " ++ toString nEv ++ " " ++ toString nErr ++ " " ++ fmtBool (terminated s.outs)) ::
-            fmtBooks "fbook" books)
+            fmtBooks "fbook" books ++ s.lvLines "flv" books)
     | _ => (s, ["bad-op"])
 
 /-! ### spec driver: ids + ground truth only -/
@@ -195,6 +227,10 @@ structure SInst where
   /-- snapshot and every message so far are genuine for the venue: the book is constrained -/
   constrained : Bool
   inst : SpecInstrument
+  /-- `depth k n`: the snapshot is the venue's book cut to the best `n` levels per side -/
+  limit : Option Nat := none
+  /-- the prices written by the updates admitted since the snapshot -/
+  written : List (Side × Rat) := []
 
 structure SSt where
   rules : Rules
@@ -207,9 +243,33 @@ def SSt.empty : SSt := ⟨.spot, [], false, false⟩
 def SSt.update (s : SSt) (k : Nat) (f : SInst → SInst) : SSt :=
   { s with insts := s.insts.map fun i => if i.key = k then f i else i }
 
+/-- the whole-book claim is stated when the snapshot is the venue's FULL book: no depth limit declared, or
+the limit cuts nothing (both sides hold fewer levels than the limit) -/
+def SInst.full (i : SInst) : Bool :=
+  match i.limit, i.snapshot with
+  | none, _ => true
+  | some n, some b => decide (b.bids.length < n) && decide (b.asks.length < n)
+  | some _, none => false
+
+/-- the prices at which `book_is_truth_on` determines the local book: covered by the depth-limited
+snapshot (`coveredBy`), written by an admitted update since, or changed by the venue since the snapshot id -/
+def SInst.known (i : SInst) (sd : Side) (p : Rat) : Bool :=
+  match i.limit, i.snapshot with
+  | some n, some b => knownPrice n b i.written i.venue i.inst.last sd p
+  | _, _ => false
+
+/-- the per-level claim: the venue's amount as of the reported sequence, at the known prices only -/
+def SInst.lvLines (i : SInst) (pfx : String) : List String :=
+  if i.limit.isNone then [] else
+  [Side.bids, Side.asks].flatMap fun sd =>
+    ((uniPrices i.venue sd).filter (i.known sd)).map fun p =>
+      lvKey pfx i.key sd p ++ " " ++ fmtRat (abs (specSide i.venue i.inst.last sd) p)
+
 def specBooks (pfx : String) (s : SSt) : List String :=
-  (s.insts.filter (·.constrained)).map fun i =>
-    pfx ++ toString i.key ++ " " ++ fmtBook (specBook i.venue i.inst.last)
+  ((s.insts.filter fun i => i.constrained && i.full).map fun i =>
+    pfx ++ toString i.key ++ " " ++ fmtBook (specBook i.venue i.inst.last)) ++
+  ((s.insts.filter (·.constrained)).flatMap fun i =>
+    i.lvLines (if pfx == "fbook" then "flv" else "lv"))
 
 def spec : Drv SSt where
   init := SSt.empty
@@ -218,7 +278,7 @@ def spec : Drv SSt where
     | ["init", r, n] =>
       match parseRules? r, n.toNat? with
       | some r, some n =>
-        ({ SSt.empty with rules := r, insts := (List.range n).map fun k => ⟨k, [], none, false, ⟨0, 0⟩⟩ }, [])
+        ({ SSt.empty with rules := r, insts := (List.range n).map fun k => { key := k, venue := [], snapshot := none, constrained := false, inst := ⟨0, 0⟩ } }, [])
       | _, _ => (s, ["bad-op"])
     | "venue" :: k :: cs =>
       match k.toNat?, parseChanges? cs with
@@ -230,18 +290,28 @@ def spec : Drv SSt where
         (s.update k fun i =>
           match i.snapshot with
           | some _ => i     -- `init` uses the first initial event of the instrument
-          | none => { i with snapshot := some b, inst := ⟨0, b.sequence⟩,
-                             constrained := decide (b = specBook i.venue b.sequence) }, [])
+          | none =>
+            -- the REST answer: the venue's book as of its id, cut to the declared depth (if any)
+            let truth := match i.limit with
+              | none => specBook i.venue b.sequence
+              | some n => truncateBook n (specBook i.venue b.sequence)
+            { i with snapshot := some b, inst := ⟨0, b.sequence⟩, written := [],
+                     constrained := decide (b = truth) }, [])
       | none => (s, ["bad-op"])
     | "snapu" :: body =>
       match parseSnap? body with
       | some _ => (s, [])
       | none => (s, ["bad-op"])
+    | ["depth", k, n] =>
+      match k.toNat?, n.toNat? with
+      | some k, some n => (s.update k fun i => { i with limit := some n }, [])
+      | _, _ => (s, ["bad-op"])
     | ["reconnect"] =>
       -- re-initialisation: a fresh connection against the same venues; what the property says about a
       -- connection holds for it from its own snapshot on, whatever the previous connection left behind
       ({ s with started := false, told := false,
-                insts := s.insts.map fun i => { i with snapshot := none, constrained := false, inst := ⟨0, 0⟩ } }, [])
+                insts := s.insts.map fun i => { i with snapshot := none, constrained := false, inst := ⟨0, 0⟩,
+                                                       written := [] } }, [])
     | ["start"] =>
       -- the property speaks about connections that came up; whether `init` succeeds is not its concern
       if s.insts.all fun i => i.snapshot.isSome && i.constrained then
@@ -258,7 +328,12 @@ def spec : Drv SSt where
         | some i =>
           let (inst', verdict) := i.inst.step s.rules m
           let genuine := decide (GenuineMsg s.rules i.venue m)
-          let s := s.update m.sub fun i => { i with inst := inst', constrained := i.constrained && genuine }
+          let wr : List (Side × Rat) :=
+            if verdict == .extended then
+              (m.bids.map fun l => (Side.bids, l.price)) ++ (m.asks.map fun l => (Side.asks, l.price))
+            else []
+          let s := s.update m.sub fun i =>
+            { i with inst := inst', constrained := i.constrained && genuine, written := wr ++ i.written }
           match verdict with
           | .told => ({ s with told := true }, ["alive 0"])
           | _ => (s, "alive 1" :: specBooks "book" s)
